@@ -238,6 +238,8 @@ pub struct ProcessingInstruction {
 
 impl ProcessingInstruction {
     pub(crate) fn new(target: NameId, data: Option<String>) -> Self {
+        // empty data is no data, as in set_data
+        let data = data.filter(|data| !data.is_empty());
         ProcessingInstruction { target, data }
     }
 
